@@ -1531,9 +1531,22 @@ class Generator:
         for ln in text.split("\n"):
             self.out.append((ln, info))
 
+    def dep_file(self, dep, rel):
+        """absolute path of file `rel` of dependency `dep` at the version pinned in the repository's Cargo.lock"""
+        lock = open(os.path.join(self.repo, "Cargo.lock"), encoding="utf-8").read()
+        vers = re.findall(r'\[\[package\]\]\s*name = "' + re.escape(dep) + r'"\s*version = "([^"]+)"', lock)
+        if len(vers) != 1:
+            raise ExtractError(f"//@expect dep={dep}: Cargo.lock pins {len(vers)} versions of it ({vers})")
+        import glob
+        home = os.environ.get("CARGO_HOME", os.path.expanduser("~/.cargo"))
+        dirs = glob.glob(os.path.join(home, "registry", "src", "*", f"{dep}-{vers[0]}"))
+        if len(dirs) != 1:
+            raise ExtractError(f"//@expect dep={dep}: source of {dep}-{vers[0]} not found in cargo's registry ({len(dirs)} candidates)")
+        return os.path.join(dirs[0], rel)
+
     def src(self, file):
         if file not in self._src_cache:
-            p = os.path.join(self.repo, file)
+            p = file if os.path.isabs(file) else os.path.join(self.repo, file)
             if not os.path.exists(p):
                 raise ExtractError(f"source file missing: {file}")
             s = open(p, encoding="utf-8").read()
@@ -1678,6 +1691,10 @@ class Generator:
                 # N27: the template transcribes a declaration that lives inside a macro invocation; the transcription is
                 # only valid while the source still contains exactly this token sequence (once)
                 kv = parse_kv(s[len("//@expect "):])
+                if kv.get("dep"):
+                    # the text of a DEPENDENCY (the version Cargo.lock pins, from cargo's registry source): a transcription of
+                    # it in a rule of this tool (N30 alt, N31 separated) is only valid while the dependency still reads so
+                    kv["file"] = self.dep_file(kv["dep"], kv["file"])
                 _, toks = self.src(kv["file"])
                 ms = find_pattern(pieces_from(toks, 0, len(toks)), kv["tokens"])
                 if len(ms) != 1:
@@ -1711,6 +1728,8 @@ class Generator:
         without being called from any function a contract mentions.  The files under contract have none today; one that
         appears (seed C19g: a Drop for the smol write half that shuts the shared socket down) makes the unit UNDECIDED."""
         for file, (text, toks) in self._src_cache.items():
+            if os.path.isabs(file):
+                continue    # a dependency's file looked at by `//@expect dep=`: none of its items is under contract here
             code_toks = [t for t in toks if t.kind not in ("ws", "lcomment", "bcomment")]
             for k, t in enumerate(code_toks):
                 if t.kind == "ident" and t.text == "impl":
